@@ -172,8 +172,8 @@ def monitor(case, res, sem, g):
 def run(check):
     n = check.pick(360, 4800)
     check.rule = ("programs with one tagged member (!wait-optional, !soft-optional, !soft-optional on a never-ending source, !oneof over two steps, !ordisabled, and all of "
-                  "them in one object) placed at top level / nested in a map / in a list / several per object, consumed by a step input, a workflow output or both; source "
-                  "outcomes drawn from {success, error, crash, deploy failure, disabled, alt}; both completion orders forced by gates; oracles: reference presence/"
+                  "them in one object, !wait-optional inside an option of a !oneof) placed at top level / nested in a map / in a list / several per object, consumed by a step input, a workflow output or both; source "
+                  "outcomes drawn from {success, error, crash, deploy failure, disabled, alt, never enabled (condition on a value that is never produced)}; both completion orders forced by gates; oracles: reference presence/"
                   "absence and values (schedule-dependent presence of soft-optional is a set), wait-optional consumers start only after the source's terminal event, a "
                   "never-ending soft-optional source never delays the consumer, a present value was produced before the consumer started, one-of discriminator names "
                   "a produced alternative and carries its data; non-trivial/distinct = (tag kind, placement, consumer, source outcomes, order)")
